@@ -576,3 +576,98 @@ example : (exec (init { min := 2, max := 2 }) [.execute 0 false, .notifyOne none
     (fun s => (s.notified, s.pc 0 == .running ⟨0, 2, false⟩, s.pc 1 == .start)) = some (true, true, true) := by decide
 
 end Tbox.C05
+
+/-! ## Round 5: widths, the spawn oracle, step-level replay -/
+
+namespace Tbox.C05
+
+/-- **`int prio` (tools/narrowing/C05.txt, thread_pool.cpp:177)**: for EVERY 32-bit `prio` the code clamps first and
+adds THREAD_POOL_PRIO_MAX afterwards, so the sum never leaves [0,4] (no signed overflow, the `int → size_t`
+conversion at `undo_tasks_token.at(level)` is value-preserving, the index is inside the array of 5 queues), and
+inside [-2,2] the priority is used unchanged. -/
+theorem C05_prio_width (p : Int) :
+    -2 ≤ clampPrio p ∧ clampPrio p ≤ 2 ∧ 0 ≤ clampPrio p + 2 ∧ clampPrio p + 2 ≤ 4 ∧
+    levelOf p = (clampPrio p + 2).toNat ∧ levelOf p < nPrio ∧
+    (-2 ≤ p → p ≤ 2 → clampPrio p = p) ∧ (p < -2 → levelOf p = 0) ∧ (2 < p → levelOf p = 4) := by
+  unfold clampPrio levelOf nPrio
+  refine ⟨?_, ?_, ?_, ?_, ?_, ?_, ?_, ?_, ?_⟩ <;> (repeat' split) <;> omega
+
+/-- adding before clamping would overflow `int` at the top of the range — the order in the code matters -/
+theorem C05_prio_add_before_clamp_counterexample : ¬ ((2147483647 : Int) + 2 ≤ 2147483647) := by decide
+
+/-- **`ssize_t` arguments of initialize() (thread_pool.cpp:127,128)**: the test is made on the signed values; exactly
+the pairs 0 ≤ min ≤ max, 0 < max are accepted, and for those the conversion to the `size_t` members keeps the value
+(so `Cfg.ok` of the stored configuration holds — the hypothesis of every theorem above); everything else, in
+particular every negative argument, is refused before anything is stored. -/
+theorem C05_initialize_width (mn mx : Int) :
+    (Cfg.okI mn mx = true ↔ 0 ≤ mn ∧ mn ≤ mx ∧ 0 < mx) ∧
+    (Cfg.okI mn mx = true → (mn.toNat : Int) = mn ∧ (mx.toNat : Int) = mx ∧
+      Cfg.ok { min := mn.toNat, max := mx.toNat } = true) := by
+  have h1 : Cfg.okI mn mx = true ↔ 0 ≤ mn ∧ mn ≤ mx ∧ 0 < mx := by
+    simp only [Cfg.okI, Bool.not_eq_true', Bool.or_eq_false_iff, decide_eq_false_iff_not]
+    omega
+  refine ⟨h1, fun h => ?_⟩
+  obtain ⟨a, b, c⟩ := h1.1 h
+  refine ⟨by omega, by omega, ?_⟩
+  simp only [Cfg.ok, Bool.and_eq_true, decide_eq_true_eq]
+  omega
+
+example : Cfg.okI 0 9223372036854775807 = true ∧ Cfg.okI (-1) 3 = false ∧ Cfg.okI 0 (-9223372036854775808) = false ∧
+    Cfg.okI 3 2 = false ∧ Cfg.okI 0 0 = false := by decide
+
+/-- **spawn oracle — a task is never lost silently**: in any reachable state of the repaired code, an execute()
+whose thread creation FAILS (`executeF`; enabled exactly when the code would call createWorker())
+either (a) finds no worker at all: it changes nothing and returns a null token — the caller is told, and no
+earlier task is waiting either; or (b) leaves the task at the back of the queue for the workers that exist (the
+cabinet is not empty and unchanged: no slot without a thread), owes a notify_one, and the resulting state satisfies
+every invariant again (`Reach`): all theorems above — accounting, no lost wake-up, no stranded task, cleanup joins
+all — hold for runs with failed creations at arbitrary points, because `sts` ranges over `executeF` too. -/
+theorem C05_spawn_failure_reported (c : Cfg) (hf : c.fixed) (hok : c.ok = true) (sts : List Step) (s : State)
+    (he : exec (init c) sts = some s) (prio : Int) (cb : Bool) (hv : valid s (.executeF prio cb) = true) :
+    (s.cab = [] ∧ step s (.executeF prio cb) = s ∧ s.undo = []) ∨
+    (s.cab ≠ [] ∧ (step s (.executeF prio cb)).undo = s.undo ++ [{ id := s.nextTask, lvl := levelOf prio, cb := cb }] ∧
+      (step s (.executeF prio cb)).pend = s.pend + 1 ∧ (step s (.executeF prio cb)).cab = s.cab ∧
+      (step s (.executeF prio cb)).nW = s.nW ∧ Reach c (step s (.executeF prio cb))) := by
+  have h := reach hf hok sts s he
+  have hr := h.step _ hv
+  cases hc : s.cab with
+  | nil =>
+    left
+    refine ⟨rfl, by simp [step, hc], ?_⟩
+    simp only [valid, inCleanup, Bool.and_eq_true, Bool.not_eq_true', Bool.and_eq_false_iff, decide_eq_true_eq] at hv
+    have hph : s.phase1 = false := by
+      rcases hv.1.1.1.2 with hp | hp
+      · exact hp
+      · simp at hp; rw [hv.1.1.2] at hp; cases hp
+    by_cases hu : s.undo = []
+    · exact hu
+    · exact absurd hc (h.strand.nonEmpty hph hu)
+  | cons x xs =>
+    right
+    refine ⟨by simp, ?_, ?_, ?_, ?_, ?_⟩
+    · simp [step, hc]
+    · simp [step, hc]
+    · simp [step, hc]
+    · simp [step, hc]
+    · exact hr
+
+/-- non-vacuity: (1,3) pool, worker 0 is busy (worker 1 was spawned and has not started), the second execute() cannot
+create a third thread: the task waits for worker 0, which then runs it -/
+example : (exec (init { min := 1, max := 3 })
+    [.execute 0 false, .notifyOne none, .enter 0, .executeF 0 true, .notifyOne none, .runBody 0, .postCb 0, .finish 0,
+     .enter 0, .runBody 0]).map (fun s => (s.ranIds, s.cab, s.nW)) = some ([1, 0], [0, 1], 2) := by decide
+/-- … and (0,1): no worker exists, creation fails: refused, nothing queued -/
+example : (exec (init { min := 0, max := 1 }) [.executeF 0 true]).map (fun s => (s.undo.length, s.nextTask, s.pend)) =
+    some (0, 0, 0) := by decide
+
+/-- **the code as found** (`executeFAsFound`): `new std::thread` throws out of execute(); the caller gets an exception
+instead of a token but the task IS queued (it will run unannounced), nobody is notified, and the cabinet now holds
+slot 2 although only threads 0 and 1 were ever created: after cleanup()'s critical section that slot is in `thread_vec` —
+cleanup() calls `join()` on its null pointer (observed: SIGSEGV in std::thread::join, corpus/C05/f-spawn-failure-*.ops). -/
+theorem C05_spawn_failure_counterexample :
+    ((exec (init { min := 1, max := 3 }) [.execute 0 false, .notifyOne none, .enter 0]).map fun s =>
+      let s' := executeFAsFound s 0 false
+      (s'.undo.length, s'.pend, s'.cab, s'.pc 2 == .exited, (step s' .cleanup1).vec)) =
+    some (1, 0, [0, 1, 2], true, [0, 1, 2]) := by decide
+
+end Tbox.C05
